@@ -225,7 +225,26 @@ func (ex *Exec) applyContract(st *State, fr *Frame, ct *Contract, fn *ssa.Functi
 	if fr.contract != nil {
 		for i, cl := range fr.contract.Asserts["call "+site] {
 			lev := ex.loopEnv(st, fr)
-			g := lev.Bool(cl.E)
+			var g T
+			if cl.Kind == "hint" {
+				ok := func() (ok bool) {
+					defer func() {
+						if r := recover(); r != nil {
+							if _, isSpec := r.(specErr); !isSpec {
+								panic(r)
+							}
+							ok = false
+						}
+					}()
+					g = lev.Bool(cl.E)
+					return true
+				}()
+				if !ok {
+					continue // the hint no longer applies to this body
+				}
+			} else {
+				g = lev.Bool(cl.E)
+			}
 			ex.oblige(st, fnKey, fmt.Sprintf("at(%s):%s", short, labelOr(cl, i)), clauseTags(cl, fr.contract), g, where, cl.Src)
 			st.assume(g) // proved above; from here on it is a lemma
 		}
